@@ -812,5 +812,98 @@ def FitStage.toGInPlace (sd : List Rat → Rat) (s : FitStage) : GStage (List C1
 (`none`): the pattern the harness compares with Python object identities -/
 def identityPattern (n0 : Nat) (out : List Nat) : List (Option Nat) := out.map (fun a => if a < n0 then some a else none)
 
+/-! # Phase 5: the stage table — which classes keep per-object state between reads, and where that state lives in the model.
+`Generated/C04Stages.lean` is extracted from the current source on every run; `Lemmas/C04` proves that it equals these
+definitions (and that `stepObj` / `finalized` / `keptByMaterialize` are the extracted constants and predicate). -/
+
+/-- how the model represents the attributes a class writes outside `__init__` -/
+inductive StateRep
+  /-- `Node.cache … (st : CacheSt)` -/
+  | cacheSt
+  /-- `Node.finalize p (isempty : Option Bool)` -/
+  | isempty
+  /-- Densify's table (`feed`, `feedHistory`) -/
+  | lookup
+  /-- `Src.started` (params before / after a started read) -/
+  | started
+  /-- written, but never read back into anything a read or `params` returns (timers, a debugging copy) -/
+  | unobserved
+deriving DecidableEq, Repr
+
+structure StageRow where
+  /-- "env" = environments/filters.py, "pipe" = pipes/filters.py, "src" = supervised / synthetics / serialized -/
+  file : String
+  cls : String
+  attrs : List String
+  rep : StateRep
+deriving DecidableEq, Repr
+
+/-- every class of the anchored files that keeps state across reads; every other class is a stateless stage
+(`Node.pure` / `Filt` / content / fit stage) or a re-iterable source -/
+def stageTable : List StageRow :=
+  [⟨"env", "Impute", ["_times"], .unobserved⟩,
+   ⟨"env", "Densify", ["_lookup"], .lookup⟩,
+   ⟨"env", "EmptyCheck", ["_isempty"], .isempty⟩,
+   ⟨"pipe", "Cache", ["_cache", "_iter"], .cacheSt⟩,
+   ⟨"src", "SupervisedSimulation", ["_params"], .started⟩,
+   ⟨"src", "NeighborsSyntheticSimulation", ["worlds"], .unobserved⟩]
+
+def stageRows (file : String) : List (String × List String) :=
+  (stageTable.filter (fun r => r.file == file)).map (fun r => (r.cls, r.attrs))
+
+/-- may an instance of a class with these class names (its MRO) change attribute `attr` between reads? -/
+def stateAllowed (mro : List String) (attr : String) : Bool :=
+  stageTable.any (fun r => mro.contains r.cls && r.attrs.contains attr)
+
+/-- the filter classes the model knows (all of coba/environments/filters.py) -/
+def modelEnvClasses : List String :=
+  ["Identity", "Take", "Slice", "Shuffle", "Reservoir", "Cache", "Scale", "Impute", "Sparsify", "Densify", "Cycle", "Flatten", "Binary",
+   "Sort", "Where", "Riffle", "Noise", "Params", "Grounded", "Repr", "Batch", "Unbatch", "BatchSafe", "Harden", "Chunk", "Logged",
+   "Mutable", "OpeRewards", "EmptyCheck", "Finalize"]
+
+/-- iterators / generators / defaultdicts a filter creates in `__init__` and keeps: only Densify's look-up table -/
+def modelEnvHeld : List (String × String × String) := [("Densify", "_lookup", "defaultdict")]
+
+/-- the node `Environments.cache()` (and `chunk()`) appends: `Cache(25)` -/
+def shortcutCacheNode : Node := .cache (some 25) false .unread
+/-- the node `Environments.materialize()` appends: `pipes.Cache(None, True)` -/
+def materializeCacheNode : Node := .cache none true .unread
+
+def Node.prot : Node → Bool
+  | .cache _ p _ => p
+  | _ => false
+
+/-- `save()` writes batches of `saveBatchModel + 1` interactions (`saveBatches saveBatchModel`) -/
+def saveBatchModel : Nat := 999
+/-- logged input: `Shuffle` uses `seed * 3.21` (the harness computes the permutations for `seed·(321/100)^d`) -/
+def loggedSeedFactor : Nat × Nat := (321, 100)
+def loggedKeys : List String := ["action", "reward"]
+
+/-! ## Phase 5: Noise on content with the draws of `CobaRandom(seed)` (Model/C05).  `Noise(context=('i', lo, hi), seed)`:
+`rng = CobaRandom(seed)` at the start of every `filter` call; every number of a context becomes `x + rng.randint(lo, hi)`, in
+order; `None` and strings draw nothing (`_noise`). -/
+def noiseIntRow (lo hi : Int) : Nat → List C11.Val → Nat × List C11.Val
+  | s, [] => (s, [])
+  | s, .num q :: vs =>
+    let r := noiseIntRow lo hi (C05.randint s lo hi).1 vs
+    (r.1, .num (q + ((C05.randint s lo hi).2 : Rat)) :: r.2)
+  | s, .nan :: vs =>
+    let r := noiseIntRow lo hi (C05.randint s lo hi).1 vs
+    (r.1, .nan :: r.2)
+  | s, v :: vs =>
+    let r := noiseIntRow lo hi s vs
+    (r.1, v :: r.2)
+
+def FitStage.noiseInt (seed lo hi : Int) : FitStage := .noise (noiseIntRow lo hi) (C05.normInt seed)
+
+/-- does `_noise` call the noiser on this value (`isinstance(value, (int, float))`) -/
+def drawsNoise : C11.Val → Bool
+  | .num _ => true
+  | .nan => true
+  | _ => false
+
+def iterNext : Nat → Nat → Nat
+  | 0, s => s
+  | n + 1, s => iterNext n (C05.next s)
 
 end Coba.C04
